@@ -136,6 +136,7 @@ type Exec struct {
 	nameCount map[string]int
 	neutralMemo map[*types.Func]int
 	specs    map[string]*specInfo
+	visitedStack []func(*State, Term) Term
 	lastIterPos string
 	lastIterDom Term
 	pendingHeapNames map[string]bool
@@ -1621,14 +1622,18 @@ func (e *Exec) rangeStmt(st *State, s *ast.RangeStmt, label string) {
 			extra["iter"] = *seqVal
 		}
 		env := e.loopEnv(st, s.Body.Pos(), extra)
-		if seqVal != nil {
-			// visited(k): key k of the map has been iterated over already
-			cur := st.vars[idx].T
-			env.visited = func(k Term) Term {
-				return And(Select(iterDom, k), Lt(T(SInt, fmt.Sprintf("(%s %s)", iterPos, k.S)), cur))
-			}
-		}
 		return env
+	}
+	if seqVal != nil {
+		// visited(k): key k of the map has been iterated over already (also visible in nested loops)
+		e.visitedStack = append(e.visitedStack, func(s0 *State, k Term) Term {
+			cur, ok := s0.vars[idx]
+			if !ok {
+				return False
+			}
+			return And(Select(iterDom, k), Lt(T(SInt, fmt.Sprintf("(%s %s)", iterPos, k.S)), cur.T))
+		})
+		defer func() { e.visitedStack = e.visitedStack[:len(e.visitedStack)-1] }()
 	}
 	// automatic bounds invariant
 	bound := func(st *State) Term {
